@@ -17,7 +17,7 @@ RULE = ("kinds: trnorm / trnorm2 (valid SO(n)/SE(n) member + entry noise 1e-15..
         "unittwist (3D and 2D twists, rotational part exactly 0, below (1e-17..1e-15) or above (>=1e-13) the zero threshold; "
         "base functions and Twist3/Twist2.unit), angdiff (angles and differences within +-1e3 incl. exact multiples of pi). "
         "Non-trivial: noise >= 1e-9, or norm outside [0.1,10], or irrotational twist, or |angle| > pi.")
-RULE = RULE + probes.RULE_TEXT + (probes.AUG_TEXT if PROPERTY_ID in probes.AUG_PROPS else "") + probes.VARIANT_TEXT + probes.OWN_TEXT
+RULE = RULE + probes.RULE_TEXT + (probes.AUG_TEXT if PROPERTY_ID in probes.AUG_PROPS else "") + probes.VARIANT_TEXT + probes.OWN_TEXT + probes.EXTRA_RULES.get(PROPERTY_ID, "")
 ASSUMPTIONS = ["tolerance 1e-12 throughout (absolute on unit-norm / orthonormality residuals, relative to the input magnitude for directions)",
                "angdiff congruence residual is evaluated with mpmath at 50 digits; tolerance 1e-12*max(1,|a|,|b|)",
                "planar trnorm2 / SO2.norm / SE2.norm: validity, idempotence, fixed point, translation kept and closeness to the input (the 3-D axis clauses of the statement have no planar analogue)"]
